@@ -385,18 +385,33 @@ func appendPartsC(c *ssa.Call) (base ssa.Value, elems []ssa.Value, spread ssa.Va
 // spread argument) and the leaves the chain bottoms out in (nil constants and empty literals are
 // not reported as leaves).
 func sliceChainC(v ssa.Value) (appends []*ssa.Call, leaves []ssa.Value) {
-	return sliceChainOptC(v, true)
+	return sliceChainOptC(v, true, false)
+}
+
+// sliceChainIPC additionally follows the construction into repository helpers: a slice (or a field
+// of a struct) returned by a helper is what the helper's returns yield. The appends found may
+// therefore belong to other functions than v's.
+func sliceChainIPC(v ssa.Value) (appends []*ssa.Call, leaves []ssa.Value) {
+	return sliceChainOptC(v, true, true)
 }
 
 // sliceChainBaseC is sliceChainC without following spread arguments (append(a, b...) contributes
 // only a): the caller inspects each spread itself.
 func sliceChainBaseC(v ssa.Value) (appends []*ssa.Call, leaves []ssa.Value) {
-	return sliceChainOptC(v, false)
+	return sliceChainOptC(v, false, false)
 }
 
-func sliceChainOptC(v ssa.Value, followSpread bool) (appends []*ssa.Call, leaves []ssa.Value) {
+func sliceChainOptC(v ssa.Value, followSpread, followCalls bool) (appends []*ssa.Call, leaves []ssa.Value) {
+	repoCallee := func(c *ssa.CallCommon) *ssa.Function {
+		if !followCalls {
+			return nil
+		}
+		return repoCalleeC(c)
+	}
 	seen := map[ssa.Value]bool{}
 	var rec func(v ssa.Value)
+	var recField func(a *ssa.Alloc, fld int)
+	var recFieldOfValue func(sv ssa.Value, fld int, orig ssa.Value)
 	rec = func(v ssa.Value) {
 		if v == nil || seen[v] {
 			return
@@ -435,6 +450,14 @@ func sliceChainOptC(v ssa.Value, followSpread bool) (appends []*ssa.Call, leaves
 				}
 				return
 			}
+			if cal := repoCallee(&x.Call); cal != nil && cal.Signature.Results().Len() == 1 {
+				for _, b := range cal.Blocks {
+					if ret := returnOf(b); ret != nil {
+						rec(ret.Results[0])
+					}
+				}
+				return
+			}
 			leaves = append(leaves, v)
 		case *ssa.UnOp:
 			if a, ok := x.X.(*ssa.Alloc); ok && x.Op == token.MUL {
@@ -449,13 +472,161 @@ func sliceChainOptC(v ssa.Value, followSpread bool) (appends []*ssa.Call, leaves
 					return
 				}
 			}
+			// field of a function-local struct variable (possibly filled from a helper's struct result)
+			if fa, ok := x.X.(*ssa.FieldAddr); ok && x.Op == token.MUL {
+				if a, ok := fa.X.(*ssa.Alloc); ok && localStructC(a) {
+					recField(a, fa.Field)
+					return
+				}
+			}
+			leaves = append(leaves, v)
+		case *ssa.Field:
+			recFieldOfValue(x.X, x.Field, v)
+		case *ssa.Extract:
+			// slice result #i of a repository helper: what its returns yield
+			if c, ok := x.Tuple.(*ssa.Call); ok {
+				if cal := repoCallee(&c.Call); cal != nil {
+					for _, b := range cal.Blocks {
+						if ret := returnOf(b); ret != nil && x.Index < len(ret.Results) {
+							rec(ret.Results[x.Index])
+						}
+					}
+					return
+				}
+			}
 			leaves = append(leaves, v)
 		default:
 			leaves = append(leaves, v)
 		}
 	}
+	// recField: every value stored into field #fld of the local struct a, including the same field of
+	// struct values stored into a as a whole
+	seenField := map[[2]interface{}]bool{}
+	recField = func(a *ssa.Alloc, fld int) {
+		key := [2]interface{}{a, fld}
+		if seenField[key] {
+			return
+		}
+		seenField[key] = true
+		for _, r := range refs(a) {
+			switch y := r.(type) {
+			case *ssa.FieldAddr:
+				if y.Field != fld {
+					continue
+				}
+				for _, r2 := range refs(y) {
+					if st, ok := r2.(*ssa.Store); ok && st.Addr == ssa.Value(y) {
+						rec(st.Val)
+					}
+				}
+			case *ssa.Store:
+				if y.Addr == ssa.Value(a) {
+					recFieldOfValue(y.Val, fld, y.Val)
+				}
+			}
+		}
+	}
+	// recFieldOfValue: field #fld of struct value sv (a load of a local struct, or a helper's result)
+	recFieldOfValue = func(sv ssa.Value, fld int, orig ssa.Value) {
+		switch y := sv.(type) {
+		case *ssa.UnOp:
+			if a, ok := y.X.(*ssa.Alloc); ok && y.Op == token.MUL && localStructC(a) {
+				recField(a, fld)
+				return
+			}
+		case *ssa.Call:
+			if cal := repoCallee(&y.Call); cal != nil && cal.Signature.Results().Len() == 1 {
+				for _, b := range cal.Blocks {
+					if ret := returnOf(b); ret != nil {
+						recFieldOfValue(ret.Results[0], fld, ret.Results[0])
+					}
+				}
+				return
+			}
+		case *ssa.Extract:
+			if c, ok := y.Tuple.(*ssa.Call); ok {
+				if cal := repoCallee(&c.Call); cal != nil {
+					for _, b := range cal.Blocks {
+						if ret := returnOf(b); ret != nil && y.Index < len(ret.Results) {
+							recFieldOfValue(ret.Results[y.Index], fld, ret.Results[y.Index])
+						}
+					}
+					return
+				}
+			}
+		case *ssa.Phi:
+			for _, e := range y.Edges {
+				recFieldOfValue(e, fld, e)
+			}
+			return
+		}
+		leaves = append(leaves, orig)
+	}
 	rec(v)
 	return appends, leaves
+}
+
+// repoCalleeC: the statically known repository callee (with a body) of a call, nil otherwise.
+func repoCalleeC(c *ssa.CallCommon) *ssa.Function {
+	cal := staticCallee(c)
+	if cal == nil || len(cal.Blocks) == 0 {
+		return nil
+	}
+	root := cal
+	for root.Parent() != nil {
+		root = root.Parent()
+	}
+	if root.Pkg == nil {
+		return nil
+	}
+	path := root.Pkg.Pkg.Path()
+	if path != repoMod && !strings.HasPrefix(path, repoMod+"/") {
+		return nil
+	}
+	if cal.Synthetic != "" {
+		return nil
+	}
+	return cal
+}
+
+// localStructC: a is a function-local struct variable that is only accessed field-wise or copied as
+// a whole (its address is never handed out), so every write to its fields is visible in the function.
+func localStructC(a *ssa.Alloc) bool {
+	if _, ok := a.Type().Underlying().(*types.Pointer).Elem().Underlying().(*types.Struct); !ok {
+		return false
+	}
+	for _, r := range refs(a) {
+		switch y := r.(type) {
+		case *ssa.FieldAddr:
+			for _, r2 := range refs(y) {
+				switch z := r2.(type) {
+				case *ssa.Store:
+					if z.Addr != ssa.Value(y) {
+						return false
+					}
+				case *ssa.UnOp:
+					if z.Op != token.MUL {
+						return false
+					}
+				case *ssa.DebugRef:
+				default:
+					return false
+				}
+			}
+		case *ssa.Store:
+			if y.Addr != ssa.Value(a) {
+				return false
+			}
+		case *ssa.UnOp:
+			if y.Op != token.MUL {
+				return false
+			}
+		case *ssa.DebugRef:
+		default:
+			return false
+		}
+	}
+	return true
 }
 
 // fieldStoresInC lists the stores in fn to a field `field` of a struct of named type pkg.typ.
@@ -934,11 +1105,10 @@ func (a *aliasC) chain(v ssa.Value) []ssa.Value {
 			next = x.X
 		case *ssa.UnOp:
 			if x.Op == token.MUL {
+				// a variable cell with exactly one store holds that value wherever it is read
 				if al, ok := x.X.(*ssa.Alloc); ok {
 					if sv := spillOfC(al); sv != nil {
-						if _, isP := sv.(*ssa.Parameter); isP {
-							next = sv
-						}
+						next = sv
 					}
 				}
 			}
@@ -1102,4 +1272,148 @@ func closeBoolEqC(k *keyer, fs factSet) bool {
 		}
 	}
 	return true
+}
+
+// ---------------------------------------------------------------------------------------------
+// Interprocedural access paths and origins
+
+// ipStageC is one reading of a value as "field path of a root".
+type ipStageC struct {
+	Root ssa.Value
+	Path []string
+}
+
+// ipPathsC returns the access path of v and its continuations through helper parameters: when the
+// root is a parameter of a repository function with exactly one static call site, the path is
+// continued with the access path of the argument (status.Canary with status bound to
+// &daemonset.Status reads daemonset.Status.Canary). Every stage is returned, innermost first.
+func ipPathsC(al *aliasC, v ssa.Value) []ipStageC {
+	root, p := accessPath(unwrap(v))
+	out := []ipStageC{{root, p}}
+	for i := 0; i < 6; i++ {
+		if ld, ok := root.(*ssa.Alloc); ok { // spilled parameter
+			if sv := spillOfC(ld); sv != nil {
+				if _, isP := sv.(*ssa.Parameter); isP {
+					root = sv
+					out = append(out, ipStageC{root, p})
+					continue
+				}
+			}
+		}
+		pr, ok := root.(*ssa.Parameter)
+		if !ok || pr.Parent() == nil || !al.p.IsRuleSite(pr.Parent()) {
+			break
+		}
+		sites := callSitesOf(pr.Parent(), al.reach)
+		idx := paramIndex(pr)
+		if len(sites) != 1 || idx < 0 || idx >= len(sites[0].Common().Args) {
+			break
+		}
+		r2, p2 := accessPath(unwrap(sites[0].Common().Args[idx]))
+		root = r2
+		p = append(append([]string{}, p2...), p...)
+		out = append(out, ipStageC{root, p})
+	}
+	return out
+}
+
+// ipIsC: some stage of v's interprocedural access path is root.<want...> (ObjectMeta selectors ignored).
+func ipIsC(al *aliasC, v ssa.Value, root ssa.Value, want ...string) bool {
+	for _, st := range ipPathsC(al, v) {
+		if st.Root == root && pathIsMetaC(st.Path, want...) {
+			return true
+		}
+	}
+	return false
+}
+
+// ipLeavesC: backward closure of v through value-preserving operations (origins) and through the
+// results of repository helpers (what their returns yield).
+func ipLeavesC(v ssa.Value) []ssa.Value {
+	var out []ssa.Value
+	seen := map[ssa.Value]bool{}
+	var rec func(v ssa.Value, d int)
+	rec = func(v ssa.Value, d int) {
+		for _, o := range origins(v) {
+			if seen[o] || d > 6 {
+				continue
+			}
+			seen[o] = true
+			switch x := o.(type) {
+			case *ssa.Extract:
+				if c, ok := x.Tuple.(*ssa.Call); ok {
+					if cal := repoCalleeC(&c.Call); cal != nil {
+						for _, b := range cal.Blocks {
+							if ret := returnOf(b); ret != nil && x.Index < len(ret.Results) {
+								rec(ret.Results[x.Index], d+1)
+							}
+						}
+						continue
+					}
+				}
+			case *ssa.Call:
+				if cal := repoCalleeC(&x.Call); cal != nil && cal.Signature.Results().Len() == 1 {
+					for _, b := range cal.Blocks {
+						if ret := returnOf(b); ret != nil {
+							rec(ret.Results[0], d+1)
+						}
+					}
+					continue
+				}
+			}
+			out = append(out, o)
+		}
+	}
+	rec(v, 0)
+	return out
+}
+
+// valueAltC is one alternative of a value together with the fact sets (one per function crossed)
+// under which it is that alternative.
+type valueAltC struct {
+	Val   ssa.Value
+	Facts []factSet
+}
+
+// helperAltsC expands v, as seen on a path with facts fs, into its alternatives: when v is result #i
+// of a repository helper, one alternative per return path of the helper (with that path's facts);
+// otherwise v itself.
+func helperAltsC(v ssa.Value, fs factSet, cap int) ([]valueAltC, bool) {
+	var call *ssa.Call
+	idx := 0
+	switch x := v.(type) {
+	case *ssa.Extract:
+		call, _ = x.Tuple.(*ssa.Call)
+		idx = x.Index
+	case *ssa.Call:
+		call = x
+	}
+	if call != nil {
+		if cal := repoCalleeC(&call.Call); cal != nil && (idx > 0 || cal.Signature.Results().Len() >= 1) {
+			paths, _, ok := funcPaths(cal, cap)
+			if !ok {
+				return nil, false
+			}
+			var out []valueAltC
+			for _, q := range paths {
+				ret := returnOf(q.Blocks[len(q.Blocks)-1])
+				if ret == nil || idx >= len(ret.Results) {
+					continue
+				}
+				out = append(out, valueAltC{Val: q.Resolve(ret.Results[idx]), Facts: []factSet{fs, q.Facts}})
+			}
+			return out, true
+		}
+	}
+	return []valueAltC{{Val: v, Facts: []factSet{fs}}}, true
+}
+
+// ipHasSuffixC: some stage of v's interprocedural access path ends with the given fields.
+func ipHasSuffixC(al *aliasC, v ssa.Value, suffix ...string) bool {
+	for _, st := range ipPathsC(al, v) {
+		if len(st.Path) >= len(suffix) && pathIsC(st.Path[len(st.Path)-len(suffix):], suffix...) {
+			return true
+		}
+	}
+	return false
 }
